@@ -911,10 +911,64 @@ def _default_arrays(fullname):
     return out
 
 
+def _auto_specs(fullname):
+    """entry points without a hand-written spec (e.g. a NEW function): arguments are guessed from the parameter names and
+    annotations of the real function (Snapshots / SingleSnapshot / ndarray / ppp / scalars with defaults)"""
+    import inspect
+    parts = fullname.split(".")
+    try:
+        m = importlib.import_module(".".join(parts[:-1]))
+        fn = getattr(m, parts[-1])
+    except Exception:  # noqa  (methods: no automatic harness)
+        return None
+    if not inspect.isfunction(fn):
+        return None
+    sig = inspect.signature(fn)
+
+    def mk(d):
+        def build(K):
+            np = K.np
+            sn = K.snaps(d)
+            args = {}
+            for name, p in sig.parameters.items():
+                ann = str(p.annotation)
+                low = name.lower()
+                if "Snapshots" in ann or low in ("snapshots", "xu_snapshots", "x_snapshots"):
+                    args[name] = sn
+                elif "SingleSnapshot" in ann or low == "snapshot":
+                    args[name] = sn.snapshots[0]
+                elif low == "ppp":
+                    args[name] = K.ppp(d)
+                elif low in ("neighborfile", "fnfile") and p.default is inspect.Parameter.empty:
+                    args[name] = K.nn(d, 5)
+                elif p.default is not inspect.Parameter.empty:
+                    continue
+                elif "NDArray" in ann or "ndarray" in ann or "array" in ann or p.annotation is inspect.Parameter.empty:
+                    if low in ("condition", "input_property"):
+                        args[name] = K.rng.random((sn.nsnapshots, sn.snapshots[0].nparticle))
+                    elif low in ("hmatrix",):
+                        args[name] = sn.snapshots[0].hmatrix
+                    else:
+                        args[name] = sn.snapshots[0].positions
+                elif "int" in ann:
+                    args[name] = d
+                elif "float" in ann:
+                    args[name] = 1.0
+                elif "str" in ann:
+                    args[name] = K.path("auto.out")
+                else:
+                    args[name] = sn.snapshots[0].positions
+            return _S(lambda: fn(**args), (args,))
+        return build
+    return [("auto/3d", mk(3)), ("auto/2d", mk(2))]
+
+
 def run_entry(fullname, what, seed=0, only_label=None):
     """-> replay result dict.  what in {'frame', 'history', 'file', 'all'}"""
     import numpy as np
     sp = specs().get(fullname)
+    if not sp:
+        sp = _auto_specs(fullname)
     if not sp:
         return {"ran": False, "failed": False, "error": f"no replay harness for {fullname}"}
     details, failed, ran, errors = [], False, 0, []
